@@ -24,7 +24,9 @@ Oracle (ULPI 1.1 3.8.2, no luna code), per UTMI packet i and PHY-side packet i a
   * `data.oe` is low in every cycle in which DIR is high;
   * bounded progress: a packet completes within 400 + 12 x length cycles of bus-free time.
 
-Not judged: op modes 0b01 / 0b11 (nothing can be transmitted in non-driving mode; 0b11 is reserved), `tx_ready` while
+Op modes 0b01 / 0b11 (non-driving / reserved; nothing meaningful can be transmitted) are exercised in a seventh of the
+packets, but there only the mode-independent part is judged (whichever framing the command byte announces must be delivered
+intact, STP position, tx_ready equivalence), not the choice of framing nor the STP data.  Not judged: `tx_ready` while
 `tx_valid` is low, the receive path (C22), the register contents (C24).  In (b) the control inputs are only changed while
 no transmission is pending (the interaction of both is C24's subject).
 """
@@ -38,13 +40,13 @@ RULE = ("case = session of 15-40 UTMI transmit packets (length 1-70, PID nibble 
         "no-bit-stuff, gap 1-30 cycles) against a PHY with random command latency and NXT profile, with PHY DIR activity placed "
         "around the start of transmissions; DUT = bare ULPITransmitTranslator or full UTMITranslator; non-trivial = >=1 packet of "
         "each op mode, >=1 TXCMD aborted by DIR and >=1 throttled packet; distinct = hash of packets, profiles and activity placement")
-REQUIRED_BINS = ["dut_bare", "dut_translator", "mode_normal", "mode_nopid", "len_1", "len_2", "len_ge_64", "nopid_zero_filled",
+REQUIRED_BINS = ["dut_bare", "dut_translator", "mode_normal", "mode_nopid", "mode_other", "len_1", "len_2", "len_ge_64", "nopid_zero_filled",
                  "nxt_always", "nxt_throttled", "cmd_latency_0", "cmd_latency_ge_3", "txcmd_aborted_by_dir", "dirnxt_while_txcmd_pending",
                  "rx_activity_right_after_stp", "nxt_high_in_stp_cycle", "nxt_low_in_stp_cycle", "gap_1_cycle", "first_byte_high_nibble_not_complement",
                  "other_bus_user_busy_at_start", "opmode_regwrite_before_tx", "nxt_low_right_after_txcmd"]
 REQUIRED_EVENTS = ["utmi_packets", "phy_packets_compared", "utmi_bytes_accepted", "phy_bytes_consumed", "stp_checked",
                    "accept_cycles_compared", "dir_high_cycles_checked"]
-ASSUMPTIONS = ["op modes 0b01 and 0b11 are not transmitted in", "UTMI transmitter holds tx_data until tx_ready and drops tx_valid in the cycle after the last accepted byte",
+ASSUMPTIONS = ["in op modes 0b01 and 0b11 the choice PID/NOPID and the STP data are not judged", "UTMI transmitter holds tx_data until tx_ready and drops tx_valid in the cycle after the last accepted byte",
                "the PHY never raises DIR inside the body of a transmit packet",
                "control inputs (op_mode) change only while no transmission is pending; the bench waits for the register write before transmitting"]
 
@@ -160,8 +162,8 @@ def _run_case(rng, tier, res):
         return act_receive(rng, [rng.randrange(256) for _ in range(n)], start=start, status=0x0D, gap_profile=rng.choice(["none", ("random", 0.3)]),
                            end=rng.choice(["dir", "rxcmd"]), garbage=phy.garbage), start
 
-    def send(data, nopid):
-        rec = {"data": list(data), "nopid": nopid, "start": b.cycle + 1, "accepts": [], "end": None}
+    def send(data, nopid, op):
+        rec = {"data": list(data), "nopid": nopid, "op": op, "start": b.cycle + 1, "accepts": [], "end": None}
         sent.append(rec)
         res.event("utmi_packets")
         i = 0
@@ -204,7 +206,7 @@ def _run_case(rng, tier, res):
         for p in range(n_pkts):
             # op mode for this packet
             if mode_run <= 0:
-                new_op = rng.choice([0, 0, 2])
+                new_op = rng.choice([0, 0, 0, 2, 2, 1, 3])
                 mode_run = rng.randint(1, 6)
                 if new_op != op:
                     op = new_op
@@ -226,7 +228,7 @@ def _run_case(rng, tier, res):
                         yield
             mode_run -= 1
             nopid = (op == 2)
-            res.bin("mode_nopid" if nopid else "mode_normal")
+            res.bin("mode_nopid" if nopid else "mode_normal" if op == 0 else "mode_other")
             data = make_packet(rng, res, nopid)
             # PHY-originated activity around the start / behind the end
             place = rng.random()
@@ -261,7 +263,7 @@ def _run_case(rng, tier, res):
             res.sig(p, nopid, tuple(data))
             if len(res.desc["packets"]) < 6:
                 res.desc["packets"].append({"nopid": nopid, "data": bytes(data[:16]).hex(), "len": len(data)})
-            yield from send(data, nopid)
+            yield from send(data, nopid, op)
             if st.get("dead"):
                 return
             gap = rng.choice([1, 1, 2, 3, 5, rng.randint(1, 30)])
@@ -305,6 +307,10 @@ def judge(res, phy, sent, utmi_accepts, bare):
     for i, (s, p) in enumerate(zip(complete, pk)):
         res.event("phy_packets_compared")
         data, nopid = s["data"], s["nopid"]
+        framing_judged = s["op"] in (0, 2)
+        if not framing_judged:
+            # op modes 0b01 / 0b11: which framing the link picks is not judged, only that the packet is delivered intact in that framing
+            nopid = (p["cmd"] == 0x40)
         ctx = "packet %d (len %d, nopid=%s, first byte %#04x, UTMI start cycle %d)" % (i, len(data), nopid, data[0], s["start"])
         want_cmd = 0x40 if nopid else 0x40 | (data[0] & 0xF)
         want_bytes = data if nopid else data[1:]
@@ -326,7 +332,7 @@ def judge(res, phy, sent, utmi_accepts, bare):
         if p["stp_cycle"] != last + 1:
             res.violation("stp_not_in_cycle_after_last_byte", "%s: last byte consumed in cycle %d, STP in cycle %s" % (ctx, last, p["stp_cycle"]))
         want_stp = 0xFF if nopid else 0x00
-        if p["stp_data"] != want_stp:
+        if framing_judged and p["stp_data"] != want_stp:
             res.violation("stp_data_wrong_nopid" if nopid else "stp_data_wrong", "%s: data bus during STP = %#04x, expected %#04x" % (ctx, p["stp_data"], want_stp))
         res.bin("nxt_high_in_stp_cycle" if p["nxt_at_stp"] else "nxt_low_in_stp_cycle")
         if p["cycles"] and p["cycles"][0] > p["accept"] + 1:
